@@ -288,7 +288,7 @@ pub fn run(r: &mut Report) {
     let mut d = Driver::spawn();
     let (shard, nshards) = shard();
     r.rule = "cases = 2-3 source audit files (overlapping crates and criteria, same or conflicting criteria definitions, non-importable entries, existing aggregated-from chains, wildcard audits and trusted entries); non-trivial = at least two sources share a crate or a criterion; distinct by hash of the encoded case".into();
-    let n = if r.thorough() { 16000 } else { 2400 } / nshards;
+    let n = if r.thorough() { 24000 } else { 7200 } / nshards;
     let mut rng = Rng::new(r.seed.wrapping_add(shard.wrapping_mul(32452843)) ^ 0xC16);
     let md = graph().metadata();
     for i in 0..n {
